@@ -7,6 +7,7 @@ import (
 	"go/constant"
 	"go/token"
 	"go/types"
+	"golang.org/x/tools/go/ssa"
 	"strings"
 )
 
@@ -140,6 +141,11 @@ func (e *Env) eval(x SExpr) *Val {
 					if r, ok := e.fr.regs[a]; ok && r.S != "" {
 						return &Val{T: a.Type(), S: r.S}
 					}
+				}
+			}
+			if a := e.fr.aliasAlloc[id.Name+"#0"]; a != nil && a.Heap {
+				if r, ok := e.fr.regs[a]; ok && r.S != "" {
+					return &Val{T: a.Type(), S: r.S}
 				}
 			}
 			return e.fail("&%s: not an escaping local that is live here", id.Name)
@@ -330,40 +336,48 @@ func (e *Env) local(name string) *Val {
 			continue
 		}
 		if k == want {
-			if a.Heap {
-				// escaping local: lives in the heap of its type
-				r, ok := e.fr.regs[a]
-				if ok && r.P != nil {
-					return e.vc.load(e.fr, e.st, r.P, token.NoPos)
-				}
-				if !ok || r.S == "" {
-					return e.fail("local %q is not live here", name)
-				}
-				el := deref(a.Type())
-				_, h := e.vc.heap(e.st, el)
-				return &Val{T: el, S: "(select " + h + " " + r.S + ")"}
-			}
-			c := e.fr.cellOf[a]
-			if c == nil {
-				if e.lenient {
-					return e.vc.havocVal(deref(a.Type()), "dead_"+base)
-				}
-				return e.fail("local %q is not live here", name)
-			}
-			v, ok := e.st.cells[c]
-			if !ok {
-				if e.lenient {
-					// dead on some path into this point: an arbitrary value (the
-					// assertion has to hold whatever it is)
-					return e.vc.havocVal(c.T, "dead_"+base)
-				}
-				return e.fail("local %q is not live here", name)
-			}
-			return v
+			return e.localValue(a, name, base)
 		}
 		k++
 	}
+	// the name the contract was written against may have been renamed in place
+	if a := e.fr.aliasAlloc[fmt.Sprintf("%s#%d", base, want)]; a != nil {
+		return e.localValue(a, name, base)
+	}
 	return nil
+}
+
+func (e *Env) localValue(a *ssa.Alloc, name, base string) *Val {
+	if a.Heap {
+		// escaping local: lives in the heap of its type
+		r, ok := e.fr.regs[a]
+		if ok && r.P != nil {
+			return e.vc.load(e.fr, e.st, r.P, token.NoPos)
+		}
+		if !ok || r.S == "" {
+			return e.fail("local %q is not live here", name)
+		}
+		el := deref(a.Type())
+		_, h := e.vc.heap(e.st, el)
+		return &Val{T: el, S: "(select " + h + " " + r.S + ")"}
+	}
+	c := e.fr.cellOf[a]
+	if c == nil {
+		if e.lenient {
+			return e.vc.havocVal(deref(a.Type()), "dead_"+base)
+		}
+		return e.fail("local %q is not live here", name)
+	}
+	v, ok := e.st.cells[c]
+	if !ok {
+		if e.lenient {
+			// dead on some path into this point: an arbitrary value (the
+			// assertion has to hold whatever it is)
+			return e.vc.havocVal(c.T, "dead_"+base)
+		}
+		return e.fail("local %q is not live here", name)
+	}
+	return v
 }
 
 func (e *Env) derefIfPtr(v *Val) *Val {
